@@ -33,14 +33,15 @@ TRUSTED = ['simulation world harness/vworld.py (virtual time for gevent.sleep/Ti
            'scripted peers harness/peers.py; class-level tracing wrappers in harness/scenario.py',
            'gevent AsyncResult semantics; C10 (timer queue) for "the timer action runs once the clock reaches the rounded deadline"']
 ASSUMPTIONS = ['time is quantised to ticks of 1/64 s so that float arithmetic on times is exact',
-               'C01_deadline_partial / C01_completes_by_rounded_deadline_partial assume the call was issued on an open client and '
-               'that no sink handler raises or swallows a response during a drain (checked at run time: no greenlet crashed)',
-               'known finding: calls issued before the client finished opening are not bounded by t+T (C01_deadline_refuted)']
+               'C01_deadline / C01_completes_by_rounded_deadline are stated over coarse runs in which a response is drained '
+               'completely (no sink handler raises or swallows it); the four fine-grained theorems have no such assumption',
+               'calls issued before the client finished opening are bounded by DispatchMethodCall\'s own timer (fix f922715; model '
+               'fields waited/otmr, label OFire)']
 MANIFEST = {
     'text': ('Theorems over every label sequence of the per-call model (any replies/faults/duplicates/timer firings in any '
              'order, any resolution r>0): completed at most once, late arrivals inert, TimeoutError never before t0+T, and - '
-             'for calls issued on an open client with complete drains - completion by the rounded deadline; the unbounded '
-             'issued-before-open case is proved refuted (known finding). Model tied to the real Thrift/ThriftMux stacks by '
+             'with complete drains - completion by the rounded deadline for every call, including calls issued before the client '
+             'finished opening (bounded by the dispatcher\'s own timer; never dispatched once timed out). Model tied to the real Thrift/ThriftMux stacks by '
              'replaying the sink-stack events of each simulated call through the model inside Coq.'),
     'note': ('Trusted: Coq kernel; simulation world, scripted peers and tracing wrappers; gevent; the environment below the '
              'timeout sink is unconstrained in the model, so servers/connections/server-set behaviour need not be modelled. '
